@@ -35,7 +35,7 @@ def cfg(props, invs, maxlevel):
 
 
 def model_check(ctx, invs, props, quick):
-    r = ctx.mc("MessageObj", cfg(props, invs, 4 if quick else 99), name="MessageObj_" + ctx.pid,
+    r = ctx.mc("MessageObj", cfg(props, invs, 4 if quick else 6), name="MessageObj_" + ctx.pid,
                expect_actions=("ASet", "AGet", "AParse", "ABytes", "ADeepCopy", "ACopy", "APickle", "ANew1", "ASetIn", "AGetIn", "AAppendIn"),
                timeout=2400 if quick else 6000)
     return r
